@@ -423,6 +423,18 @@ func runC17Case(c *Ctx, idx int) *CaseResult {
 			cr.inc("undamaged_checks_after_rejection")
 		}
 	}
+	// a knowledge base that saw nothing but a rejected text is still a good place for the next text
+	if !preloaded && berr != nil {
+		if err := rb.BuildRuleFromResource(kbName, kbVer, pkg.NewBytesResource([]byte(c17PreText))); err != nil {
+			cr.violate("a well-formed text is rejected by a knowledge base that only saw a rejected text before: "+err.Error(), detail)
+			return cr
+		}
+		if msg := c17Undamaged(lib, c.Rng(idx, 9)); msg != "" {
+			cr.violate("rules loaded after a rejected text (into a knowledge base that held nothing else) do not work: "+msg, detail)
+			return cr
+		}
+		cr.inc("good_text_after_a_rejection_into_an_empty_knowledge_base")
+	}
 	if cr.Sample == nil && idx%211 == 0 {
 		cr.Sample = map[string]interface{}{"document": trunc(doc, 500), "mutation": kind, "recogniser": detail["recogniser"], "builder_error": fmt.Sprint(berr)}
 	}
